@@ -117,6 +117,9 @@ def run(R):
     # ---- STEP-LIVE
     common.step_live(R, ro, "C03.STEP-LIVE")
 
+    # a task handed to another thread's scheduler is resumed while it is running there: the deduplication scope is per thread
+    from .c12 import dedup_key_rule
+    dedup_key_rule(R, "C03.DEDUP-KEY")
     # ---- ORDER-PARITY
     hm = ro.handle_task_method()
     hp = q.param_names(hm.node)[1]
@@ -277,6 +280,26 @@ def acc_rule(R, ro):
     R.check(ok, "C03.DEPS", m.qualname, R.site(m, c),
             "futures of the yielded value are collected into self._dependencies, the list is_blocked() examines",
             "extract_futures no longer fills self._dependencies")
+    # ... and nothing else rewrites that list: between extract_futures and the push loop its order IS the start order.  The only
+    # other writes are resets to an empty list.
+    for mm_ in list(at.methods.values()) + ro.ts_methods():
+        for st in q.scope_nodes(mm_.node):
+            tg = []
+            if isinstance(st, ast.Assign):
+                tg = [t for t in st.targets if isinstance(t, ast.Attribute) and t.attr == "_dependencies"]
+                fresh = isinstance(st.value, (ast.List, ast.Tuple)) and not st.value.elts
+            elif isinstance(st, ast.AugAssign) and isinstance(st.target, ast.Attribute) and st.target.attr == "_dependencies":
+                tg, fresh = [st.target], False
+            for t in tg:
+                R.check(fresh, "C03.DEPS", "%s:rewrite:%s" % (mm_.qualname, q.stmt_key(st)[:40]), R.site(mm_, st),
+                        "%s only resets the dependency list" % mm_.name,
+                        "%s rebuilds the dependency list (`%s`): the order in which extract_futures recorded the yielded futures - the order tasks yielded "
+                        "together are started in - is no longer what the scheduler pushes" % (mm_.name, q.src(st)[:70]))
+        for c2 in q.calls(mm_.node):
+            recv, name = q.attr_call(c2)
+            if recv is not None and q.src(recv).endswith("._dependencies") and name in ("sort", "reverse", "insert", "remove", "pop", "extend", "append", "clear"):
+                R.check(name == "clear", "C03.DEPS", "%s:mutate:%s" % (mm_.qualname, name), R.site(mm_, c2),
+                        "the dependency list is only cleared", "%s reorders or edits the dependency list (`%s`)" % (mm_.name, q.src(c2)[:60]))
     p0 = q.param_names(m.node)
     if len(p0) >= 2:
         R.check(q.src(c.args[0]) == p0[1], "C03.DEPS", m.qualname + ":value", R.site(m, c),
